@@ -1555,6 +1555,28 @@ func (r *Run) evalRaw(e ast.Expr, env *Env) Val {
 				}
 			}
 		}
+		if bl, ok := base.(VList); ok && bl.Elems != nil {
+			// a decidable list sliced at constant bounds (x[:0] of the filter-in-place idiom, x[1:], x[:n])
+			lo, hi := 0, len(bl.Elems)
+			okIdx := true
+			if x.Low != nil {
+				if iv, ok := r.eval(x.Low, env).(VInt); ok {
+					lo = int(iv.N)
+				} else {
+					okIdx = false
+				}
+			}
+			if x.High != nil {
+				if iv, ok := r.eval(x.High, env).(VInt); ok {
+					hi = int(iv.N)
+				} else {
+					okIdx = false
+				}
+			}
+			if okIdx && lo >= 0 && hi <= len(bl.Elems) && lo <= hi {
+				return VList{Key: bl.Key, Elems: append([]Val{}, bl.Elems[lo:hi]...)}
+			}
+		}
 		k := base.key() + "["
 		if x.Low != nil {
 			k += r.eval(x.Low, env).key()
